@@ -63,7 +63,12 @@ func c19LongRun(n int) {
 	res := c19Result{G: 1, Procs: runtime.GOMAXPROCS(0), Draws: n, RaceEnabled: raceEnabled}
 	const exactN = 8 << 20
 	exact := make([]c19Pair, 0, exactN)
-	sample := make([]c19Pair, 0, n/16+n/64+1024)
+	// value-selected sample: IDs whose top bits are zero; the rate keeps about 8M of them whatever n is
+	shift := uint(60)
+	for s := n >> 27; s > 0 && shift > 40; s >>= 1 {
+		shift--
+	}
+	sample := make([]c19Pair, 0, n>>(64-shift)+n>>(66-shift)+1024)
 	var bad int64
 	single := n / 4 * 3
 	for k := 0; k < single; k++ {
@@ -74,7 +79,7 @@ func c19LongRun(n int) {
 		if k < exactN {
 			exact = append(exact, c19Pair{id.Higher, id.Lower})
 		}
-		if id.Higher>>60 == 0 {
+		if id.Higher>>shift == 0 {
 			sample = append(sample, c19Pair{id.Higher, id.Lower})
 		}
 	}
@@ -91,7 +96,7 @@ func c19LongRun(n int) {
 				if id.Higher>>12&0xf != 4 || id.Lower>>62 != 2 {
 					lb++
 				}
-				if id.Higher>>60 == 0 {
+				if id.Higher>>shift == 0 {
 					local = append(local, c19Pair{id.Higher, id.Lower})
 				}
 			}
@@ -139,6 +144,12 @@ func c19Child(spec string) {
 	if strings.HasPrefix(spec, "long/") {
 		fmt.Sscanf(spec, "long/%d", &draws)
 		c19LongRun(draws)
+		return
+	}
+	if strings.HasPrefix(spec, "gcchurn/") {
+		var rounds int
+		fmt.Sscanf(spec, "gcchurn/%d", &rounds)
+		c19GCChurn(rounds)
 		return
 	}
 	if strings.HasPrefix(spec, "pause/") {
@@ -262,6 +273,35 @@ func c19Child(spec string) {
 			res.MinDistinctWindow = len(d)
 		}
 	}
+	json.NewEncoder(os.Stdout).Encode(res)
+}
+
+// c19GCChurn: a long-lived service that makes an ID now and then, with garbage collections in between
+// (two per round: what a sync.Pool holds survives one). State that is dropped and rebuilt by the
+// collector (pools, finalizers, weak caches) is rebuilt once per round here, a hundred thousand times.
+func c19GCChurn(rounds int) {
+	runtime.GOMAXPROCS(1)
+	res := c19Result{G: 1, Procs: 1, RaceEnabled: raceEnabled}
+	seen := make(map[uu.ID]struct{}, 2*rounds)
+	for k := 0; k < rounds; k++ {
+		for i := 0; i < 2; i++ {
+			id := uu.RandomID()
+			res.Draws++
+			if id.Higher>>12&0xf != 4 || id.Lower>>62 != 2 {
+				res.BadBits++
+			}
+			if _, dup := seen[id]; dup {
+				res.Duplicates++
+				if res.FirstDuplicate == "" {
+					res.FirstDuplicate = id.String()
+				}
+			}
+			seen[id] = struct{}{}
+		}
+		runtime.GC()
+		runtime.GC()
+	}
+	res.Distinct = int64(len(seen))
 	json.NewEncoder(os.Stdout).Encode(res)
 }
 
@@ -500,6 +540,27 @@ func runC19(c *rt.Ctx) {
 		}(j, secs)
 	}
 
+	// garbage-collector churn (uninstrumented binary: the pattern matters, not the detector)
+	churnRounds := c.Pick(120000, 320000)
+	var churnRes c19Result
+	var churnErr error
+	var churnStderr string
+	if fast := os.Getenv("VERIF_MON_FAST"); fast != "" {
+		pauseWG.Add(1)
+		go func() {
+			defer pauseWG.Done()
+			cmd := exec.Command(fast, "C19")
+			cmd.Env = append(os.Environ(), fmt.Sprintf("VERIF_C19_CHILD=gcchurn/%d", churnRounds), "GOTRACEBACK=single")
+			var out, errb strings.Builder
+			cmd.Stdout, cmd.Stderr = &out, &errb
+			churnErr = cmd.Run()
+			if jerr := json.Unmarshal([]byte(out.String()), &churnRes); jerr != nil && churnErr == nil {
+				churnErr = jerr
+			}
+			churnStderr = errb.String()
+		}()
+	}
+
 	// positive control
 	_, blocks, _, err := runChild("control", "control")
 	c.SelfTest("race-detector-armed (positive control reported a race)", err == nil && len(blocks) >= 1)
@@ -510,36 +571,26 @@ func runC19(c *rt.Ctx) {
 		c.SelfTest("monitor-records-a-mismatch", sc.Violations() == 1)
 	}
 
-	// long uninstrumented run: state that is reset or wraps after tens of millions of draws
+	// long uninstrumented run: state that is reset, wraps or falls into a cycle after very many draws. It runs
+	// beside the race children (one busy core); its verdict is taken at the end.
+	longN := c.Pick(640000000, 3200000000)
+	var longRes c19Result
+	var longErr, longJErr error
+	var longStderr string
+	longStarted := false
 	if fast := os.Getenv("VERIF_MON_FAST"); fast != "" {
-		n := c.Pick(96000000, 480000000)
-		cmd := exec.Command(fast, "C19")
-		cmd.Env = append(os.Environ(), fmt.Sprintf("VERIF_C19_CHILD=long/%d", n), "GOTRACEBACK=single")
-		var out, errb strings.Builder
-		cmd.Stdout, cmd.Stderr = &out, &errb
-		err := cmd.Run()
-		var res c19Result
-		c.Serial("long-run", func(w *rt.W) {
-			if jerr := json.Unmarshal([]byte(out.String()), &res); err != nil || jerr != nil {
-				tail := errb.String()
-				if len(tail) > 2000 {
-					tail = tail[:2000]
-				}
-				w.Fail("child-died", "draws", rt.Args("mode", "long uninstrumented run", "draws", n, "stderr", tail), fmt.Sprint(err, jerr), "normal exit", "the long-run process died\n"+tail)
-				return
-			}
-			w.Eval(int64(res.Draws))
-			args := rt.Args("mode", "long uninstrumented run, one goroutine then four; duplicates exact over the first 8M draws and over a 1/16 sample of all", "draws", res.Draws)
-			if res.Duplicates > 0 {
-				w.Fail("duplicate-id-long-run", "draws", args, fmt.Sprintf("%d duplicates among %d IDs, e.g. %s", res.Duplicates, res.Draws, res.FirstDuplicate), "no duplicate within a run", "the same ID was returned twice in one long run")
-			}
-			if res.BadBits > 0 {
-				w.Fail("not-version4-variant1", "draws", args, fmt.Sprintf("%d IDs with wrong version/variant bits", res.BadBits), "version 4, variant 1 on every ID", "generated ID is not a version 4 / RFC 4122 variant UUID")
-			}
-			w.ClassN("long-run-draws", int64(res.Draws))
-			w.Sample("long-run", map[string]any{"draws": res.Draws, "ids_kept_for_duplicate_detection": res.Distinct, "duplicates": res.Duplicates})
-		})
-		c.Require("long-run-draws", int64(n)*9/10)
+		longStarted = true
+		pauseWG.Add(1)
+		go func() {
+			defer pauseWG.Done()
+			cmd := exec.Command(fast, "C19")
+			cmd.Env = append(os.Environ(), fmt.Sprintf("VERIF_C19_CHILD=long/%d", longN), "GOTRACEBACK=single")
+			var out, errb strings.Builder
+			cmd.Stdout, cmd.Stderr = &out, &errb
+			longErr = cmd.Run()
+			longJErr = json.Unmarshal([]byte(out.String()), &longRes)
+			longStderr = errb.String()
+		}()
 	} else {
 		c.Inconclusive("VERIF_MON_FAST is not set: the long uninstrumented run was not executed")
 	}
@@ -585,6 +636,51 @@ func runC19(c *rt.Ctx) {
 	}
 	pauseWG.Wait()
 	jobs = append(jobs, pauseJobs...)
+	if longStarted {
+		c.Serial("long-run", func(w *rt.W) {
+			res, n := longRes, longN
+			if longErr != nil || longJErr != nil {
+				tail := longStderr
+				if len(tail) > 2000 {
+					tail = tail[:2000]
+				}
+				w.Fail("child-died", "draws", rt.Args("mode", "long uninstrumented run", "draws", n, "stderr", tail), fmt.Sprint(longErr, longJErr), "normal exit", "the long-run process died\n"+tail)
+				return
+			}
+			w.Eval(int64(res.Draws))
+			args := rt.Args("mode", "long uninstrumented run, one goroutine then four; duplicates exact over the first 8M draws and over a value-selected sample of all", "draws", res.Draws)
+			if res.Duplicates > 0 {
+				w.Fail("duplicate-id-long-run", "draws", args, fmt.Sprintf("%d duplicates among %d IDs, e.g. %s", res.Duplicates, res.Draws, res.FirstDuplicate), "no duplicate within a run", "the same ID was returned twice in one long run")
+			}
+			if res.BadBits > 0 {
+				w.Fail("not-version4-variant1", "draws", args, fmt.Sprintf("%d IDs with wrong version/variant bits", res.BadBits), "version 4, variant 1 on every ID", "generated ID is not a version 4 / RFC 4122 variant UUID")
+			}
+			w.ClassN("long-run-draws", int64(res.Draws))
+			w.Sample("long-run", map[string]any{"draws": res.Draws, "ids_kept_for_duplicate_detection": res.Distinct, "duplicates": res.Duplicates})
+		})
+		c.Require("long-run-draws", int64(longN)*9/10)
+		c.Serial("gc-churn", func(w *rt.W) {
+			args := rt.Args("mode", "two IDs, two garbage collections, repeated; GOMAXPROCS 1; every ID kept", "rounds", churnRounds)
+			if churnErr != nil {
+				tail := churnStderr
+				if len(tail) > 2000 {
+					tail = tail[:2000]
+				}
+				args["stderr"] = tail
+				w.Fail("child-died", "draws", args, churnErr.Error(), "normal exit", "the gc-churn process died\n"+tail)
+				return
+			}
+			w.Eval(int64(churnRes.Draws))
+			if churnRes.Duplicates > 0 {
+				w.Fail("duplicate-id-across-collections", "draws", args, fmt.Sprintf("%d duplicates among %d IDs, e.g. %s", churnRes.Duplicates, churnRes.Draws, churnRes.FirstDuplicate), "no duplicate within a run", "the same ID was returned twice in one process that collected garbage between draws")
+			}
+			if churnRes.BadBits > 0 {
+				w.Fail("not-version4-variant1", "draws", args, fmt.Sprintf("%d IDs with wrong version/variant bits", churnRes.BadBits), "version 4, variant 1 on every ID", "generated ID is not a version 4 / RFC 4122 variant UUID")
+			}
+			w.ClassN("gc-churn-rounds", int64(churnRes.Draws/2))
+		})
+		c.Require("gc-churn-rounds", int64(churnRounds)*9/10)
+	}
 	c.Serial("draws", func(w *rt.W) {
 		for _, j := range jobs {
 			{
